@@ -278,7 +278,7 @@ class SymInterp(Interp):
         if isinstance(v, DType) and name in ("kind", "itemsize", "name"):
             return getattr(v, name)
         if isinstance(v, SArr):
-            return self.sarr_attr(v, name, node)
+            return self.guard_kwargs(self.sarr_attr(v, name, node), "ndarray." + name)
         if isinstance(v, Rat):
             if name == "shape":
                 return ()
@@ -305,7 +305,7 @@ class SymInterp(Interp):
         if name == "flags":
             return Flags(a)
         if name in ("any", "all"):
-            return lambda axis=None, **kw: self.np_attr(name, None)(a)
+            return lambda axis=None, **kw: self.np_attr(name, None)(a, axis=axis)
         if name == "copy":
             return lambda order=None: a.copy()
         if name == "sum":
@@ -334,12 +334,12 @@ class SymInterp(Interp):
                 if order == "A" and a._view is not None:
                     fl = Flags(a)
                     order = "F" if fl.f_contiguous and not fl.c_contiguous else "C"
-                if order == "K" and a._view is not None:
-                    # memory order: the elements in the order they lie in the underlying buffer
+                if order == "K" and a._view is not None and a.ndim >= 2:
+                    # 'K': axes in the order of their strides in memory (largest first), each axis in its own direction
                     pos = S.mem_positions(a)
                     if len(set(pos)) == len(pos):
-                        d = a.data
-                        return SArr((a.size,), [d[i] for i in sorted(range(len(pos)), key=lambda i: pos[i])], dtype=a.dtype)
+                        perm = S.k_order_axes(a)
+                        return SArr((a.size,), list(S.transpose(a, perm).data), dtype=a.dtype)
                 if order == "F":
                     return SArr((a.size,), list(S.transpose(a).data))
                 return SArr((a.size,), list(a.data))
@@ -357,7 +357,7 @@ class SymInterp(Interp):
         if name in ("max", "min"):
             return lambda axis=None: self.np_minmax(name, a, axis)
         if name == "squeeze":
-            return lambda axis=None: SArr(tuple(s for s in a.shape if s != 1), list(a.data))
+            return lambda axis=None: SArr(tuple(s for s in a.shape if s != 1), list(a.data)) if axis is None else (_ for _ in ()).throw(AnalysisAbort("squeeze with axis"))
         if name == "reshape":
             def reshape(*shape, order="C"):
                 shape = shape[0] if len(shape) == 1 and isinstance(shape[0], (tuple, list)) else shape
@@ -607,6 +607,15 @@ class SymInterp(Interp):
             return allclose
         if name in ("any", "all"):
             def anyall(a, axis=None):
+                if axis is not None:
+                    arr = S.asarr(a)
+                    k = int(axis) % arr.ndim
+                    moved = S.moveaxis(arr, k, arr.ndim - 1)
+                    n = arr.shape[k]
+                    d = moved.data
+                    rows = [d[i:i + n] for i in range(0, len(d), n)]
+                    out = [rat(int(bool(anyall(SArr((n,), list(r)))))) for r in rows]
+                    return SArr(moved.shape[:-1], out)
                 vals = S.asarr(a).data
                 # a non-zero polynomial is non-zero for generic values of its symbols
                 bs = [(v.const() != 0) if v.is_const() else (not v.is_zero()) for v in vals]
